@@ -503,6 +503,12 @@ var bindValues = []bindValue{
 	{"chan", func() any { return make(chan int) }},
 	{"func", func() any { return func() {} }},
 	{"mapchan", func() any { return map[string]any{"c": make(chan int)} }},
+	{"partialmap", func() any { return map[string]any{"name": "only-name"} }},
+	{"badfield", func() any { return map[string]any{"id": 42, "name": 5} }}, // fails part-way into a struct
+	// typed nils are non-nil values
+	{"nilptr", func() any { return (*tagged)(nil) }},
+	{"nilmap", func() any { return map[string]any(nil) }},
+	{"nilslice", func() any { return []int(nil) }},
 }
 
 // destinations of class ptrother
@@ -515,6 +521,10 @@ var bindOtherDests = []func() any{
 	func() any { var i int; return &i },
 	func() any { return &[]int{} },
 	func() any { var s string; return &s },
+	// pre-filled destinations: json.Unmarshal decodes INTO the destination, fields absent from the JSON survive
+	func() any { return &tagged{ID: 77, Name: "keep"} },
+	func() any { return &map[string]any{"keep": true} },
+	func() any { return &untagged{ID: 9, Name: "keep", Tags: []string{"x", "y"}} },
 }
 
 func deepCopyCheck(a, b any) bool {
@@ -535,6 +545,9 @@ func runBind(carrier string, present, nilval bool, destClass string, bv bindValu
 		v, orig = bv.mk(), bv.mk()
 		switch reflect.ValueOf(v).Kind() {
 		case reflect.Chan, reflect.Func, reflect.Ptr:
+			orig = nil
+		}
+		if rv := reflect.ValueOf(v); (rv.Kind() == reflect.Map || rv.Kind() == reflect.Slice) && rv.IsNil() {
 			orig = nil
 		}
 		if bv.name == "mapchan" {
@@ -572,7 +585,7 @@ func runBind(carrier string, present, nilval bool, destClass string, bv bindValu
 		}
 	}
 	ev := Event{"ev": "bind", "carrier": carrier, "present": present, "nilval": nilval, "dest": destClass, "ref": ref, "val": bv.name,
-		"panicked": false, "iserr": false, "desteq": false, "copyeq": false, "srcsame": true}
+		"panicked": false, "iserr": false, "desteq": false, "copyeq": false, "srcsame": true, "partialeq": true}
 	var err error
 	func() {
 		defer func() {
@@ -597,6 +610,11 @@ func runBind(carrier string, present, nilval bool, destClass string, bv bindValu
 		}
 	}()
 	ev["iserr"] = err != nil
+	if err != nil && present && !nilval && destClass == "ptrother" && ref == "unmarshalerr" && ev["panicked"] == false {
+		// a decode that fails part-way leaves exactly what encoding/json leaves in the destination
+		got := reflect.ValueOf(dest).Elem().Interface()
+		ev["partialeq"] = reflect.DeepEqual(got, reflect.ValueOf(refDest).Elem().Interface())
+	}
 	if orig != nil && !deepCopyCheck(v, orig) {
 		ev["srcsame"] = false
 	}
@@ -643,6 +661,7 @@ func runBindAgree(bv bindValue, destIdx int) Event {
 type cfgStep struct {
 	Param, Form string
 	Val         int
+	Sty         string // function settings: "r" Result style, "a" Any style
 }
 
 type cfgProbe struct {
@@ -668,7 +687,11 @@ func (p *cfgProbe) mark(phase string, id int) {
 func runConfigScenario(kind string, steps []cfgStep) []Event {
 	var evs []Event
 	for _, s := range steps {
-		evs = append(evs, Event{"ev": "cfgstep", "param": s.Param, "form": s.Form, "val": s.Val})
+		sty := s.Sty
+		if sty == "" {
+			sty = "r"
+		}
+		evs = append(evs, Event{"ev": "cfgstep", "param": s.Param, "form": s.Form, "val": s.Val, "sty": sty})
 	}
 	p := &cfgProbe{called: map[string]int{}, barrier: make(chan struct{})}
 	var boom = errors.New("probe failure")
@@ -734,6 +757,22 @@ func runConfigScenario(kind string, steps []cfgStep) []Event {
 			return flyt.DefaultAction, nil
 		}
 	}
+	prepFnA := func(id int) func(context.Context, *flyt.SharedStore) (any, error) {
+		return func(ctx context.Context, s *flyt.SharedStore) (any, error) { p.mark("prep", id); return "prep", nil }
+	}
+	execFnA := func(id int) func(context.Context, any) (any, error) {
+		inner := execFn(id)
+		return func(ctx context.Context, v any) (any, error) {
+			r, err := inner(ctx, flyt.NewResult(v))
+			return r.Value(), err
+		}
+	}
+	postFnA := func(id int) func(context.Context, *flyt.SharedStore, any, any) (flyt.Action, error) {
+		return func(ctx context.Context, s *flyt.SharedStore, a, b any) (flyt.Action, error) {
+			p.mark("post", id)
+			return flyt.DefaultAction, nil
+		}
+	}
 	fbFn := func(id int) func(any, error) (any, error) {
 		return func(a any, err error) (any, error) { p.mark("fb", id); return "fallback", nil }
 	}
@@ -785,11 +824,23 @@ func runConfigScenario(kind string, steps []cfgStep) []Event {
 			}
 			switch s.Param {
 			case "prep":
-				opts = append(opts, flyt.WithPrepFunc(prepFn(s.Val)))
+				if s.Sty == "a" {
+					opts = append(opts, flyt.WithPrepFuncAny(prepFnA(s.Val)))
+				} else {
+					opts = append(opts, flyt.WithPrepFunc(prepFn(s.Val)))
+				}
 			case "exec":
-				opts = append(opts, flyt.WithExecFunc(execFn(s.Val)))
+				if s.Sty == "a" {
+					opts = append(opts, flyt.WithExecFuncAny(execFnA(s.Val)))
+				} else {
+					opts = append(opts, flyt.WithExecFunc(execFn(s.Val)))
+				}
 			case "post":
-				opts = append(opts, flyt.WithPostFunc(postFn(s.Val)))
+				if s.Sty == "a" {
+					opts = append(opts, flyt.WithPostFuncAny(postFnA(s.Val)))
+				} else {
+					opts = append(opts, flyt.WithPostFunc(postFn(s.Val)))
+				}
 			case "fb":
 				opts = append(opts, flyt.WithExecFallbackFunc(fbFn(s.Val)))
 			default:
@@ -814,11 +865,23 @@ func runConfigScenario(kind string, steps []cfgStep) []Event {
 					case "mode":
 						b = b.WithBatchErrorHandling(s.Val == 0)
 					case "prep":
-						b = b.WithPrepFunc(prepFn(s.Val))
+						if s.Sty == "a" {
+							b = b.WithPrepFuncAny(prepFnA(s.Val))
+						} else {
+							b = b.WithPrepFunc(prepFn(s.Val))
+						}
 					case "exec":
-						b = b.WithExecFunc(execFn(s.Val))
+						if s.Sty == "a" {
+							b = b.WithExecFuncAny(execFnA(s.Val))
+						} else {
+							b = b.WithExecFunc(execFn(s.Val))
+						}
 					case "post":
-						b = b.WithPostFunc(postFn(s.Val))
+						if s.Sty == "a" {
+							b = b.WithPostFuncAny(postFnA(s.Val))
+						} else {
+							b = b.WithPostFunc(postFn(s.Val))
+						}
 					case "fb":
 						b = b.WithExecFallbackFunc(fbFn(s.Val))
 					}
@@ -847,7 +910,11 @@ func runConfigScenario(kind string, steps []cfgStep) []Event {
 					case "prep":
 						b = b.WithPrepFunc(bprepFn(s.Val))
 					case "exec":
-						b = b.WithExecFunc(execFn(s.Val))
+						if s.Sty == "a" {
+							b = b.WithExecFuncAny(execFnA(s.Val))
+						} else {
+							b = b.WithExecFunc(execFn(s.Val))
+						}
 					case "post":
 						b = b.WithPostFunc(bpostFn(s.Val))
 					}
@@ -1056,7 +1123,7 @@ func init() {
 				var steps []cfgStep
 				for _, s := range asList(line["steps"]) {
 					m := asMap(s)
-					steps = append(steps, cfgStep{asStr(m["param"]), asStr(m["form"]), asInt(m["val"])})
+					steps = append(steps, cfgStep{asStr(m["param"]), asStr(m["form"]), asInt(m["val"]), asStr(m["sty"])})
 				}
 				run(asStr(line["kind"]), steps, "tlc")
 			}
@@ -1095,7 +1162,11 @@ func init() {
 				default:
 					val = 1 + r.Intn(2)
 				}
-				s := cfgStep{prm, form, val}
+				sty := "r"
+				if !base && prm != "fb" && r.Intn(2) == 0 && (kind == "node" || prm == "exec") {
+					sty = "a"
+				}
+				s := cfgStep{prm, form, val, sty}
 				if form == "opt" {
 					optSteps = append(optSteps, s)
 				} else {
